@@ -1,1 +1,300 @@
-/- C14 — property theorems (stub: not built yet). -/
+/-
+C14 — Query, generate, convert and write operations never modify their inputs.
+
+The statements are about the effect model `Reamber/Model/Effects.lean` (heap of frames, signatures, behaviours,
+histories) against the specification `Reamber/Spec/Effects.lean` (`FrameHolds`, `Fresh`).  They hold for EVERY
+behaviour that lies within the signatures of a table and for every history; that each real operation lies within
+the signature `opTable` assigns to it is what the correspondence check observes on every run (deep snapshots,
+`np.shares_memory`, mutate-the-result-then-re-snapshot), and what `source_tie` re-reads from the source.
+
+Property text (full strength), kept here for comparison with what is proved:
+  "Every operation that returns a new value … leaves each chart and list it was given identical in values,
+   columns, types and row labels.  Results documented as copies share no mutable state with the input: changing
+   the result afterwards does not change the input.  For all charts and lists of all games and every listed
+   operation, applied once or in any sequence."
+Proved below for the model: `call_frame` (one call), `call_fresh` + `copy_result_mutation_frame` (copies), and
+`frame_history` (any sequence, any interleaving with the client changing copies it received), instantiated for the
+code's table in `frame_history_opTable`.  Narrowed by: the two converters of finding N14a (`n14a_counterexample`).
+Not a theorem (observed): that the code's operations have the signatures of `opTable`.
+-/
+import Reamber.Lemmas.Effects
+import Reamber.Generated.Effects
+
+namespace Reamber.Effects
+
+variable {α : Type}
+
+/-! ## one call -/
+
+/-- **frame, one call.** An operation whose signature lets it write nothing leaves every cell reachable from its
+arguments exactly as it was — values, columns, types, row labels (`Frame.same_components`) — whatever it computes. -/
+theorem call_frame {s : Sig} {args : List Obj} (h : Heap α) {b : Beh α}
+    (hs : s.writes = []) (hw : b.within s h.length args = true) (hv : validArgs h.length args = true) :
+    FrameHolds h (applyBeh h b) (reach args) := by
+  intro r hr
+  rw [applyBeh_of_pure h hs hw]
+  exact List.getElem?_append_left (mem_reach_lt hv r hr)
+
+/-- the same for every cell of the heap, reachable from an argument or not -/
+theorem call_frame_all {s : Sig} {args : List Obj} (h : Heap α) {b : Beh α}
+    (hs : s.writes = []) (hw : b.within s h.length args = true) :
+    ∀ r, r < h.length → (applyBeh h b)[r]? = h[r]? := by
+  intro r hr
+  rw [applyBeh_of_pure h hs hw]
+  exact List.getElem?_append_left hr
+
+/-- **fresh.** The result of an operation whose signature lets it share nothing reaches no cell that existed before
+the call, and only cells that exist after it. -/
+theorem call_fresh {s : Sig} {args : List Obj} (h : Heap α) {b : Beh α}
+    (hs : s.shares = []) (hw : b.within s h.length args = true) :
+    Fresh h.length b.ret ∧ ∀ r ∈ b.ret, r < h.length + b.news.length := by
+  have := within_ret_fresh hs hw
+  exact ⟨fun r hr => (this r hr).1, fun r hr => (this r hr).2⟩
+
+/-- **changing the result afterwards does not change the input.** After a call that writes nothing and shares
+nothing, any in-place change `ws` of cells of the result leaves every cell reachable from the arguments as it was
+before the call. -/
+theorem copy_result_mutation_frame {s : Sig} {args : List Obj} (h : Heap α) {b : Beh α} (ws : List (Ref × α))
+    (hpure : s.writes = []) (hfresh : s.shares = [])
+    (hw : b.within s h.length args = true) (hv : validArgs h.length args = true)
+    (hws : ∀ w ∈ ws, w.1 ∈ b.ret) :
+    FrameHolds h (applyWrites (applyBeh h b) ws) (reach args) := by
+  intro r hr
+  have hlt := mem_reach_lt hv r hr
+  rw [applyWrites_getElem?_of_not_written]
+  · exact call_frame h hpure hw hv r hr
+  · intro w hwm heq
+    have := (call_fresh h hfresh hw).1 w.1 (hws w hwm)
+    exact Nat.not_le.mpr hlt (heq ▸ this)
+
+/-- **model satisfies spec, in the decidable form the harness evaluates on the implementation's observations**
+(`c14.check` computes exactly `frameB` / `freshB` on the snapshots taken around each real call). -/
+theorem call_spec_holds [DecidableEq α] {s : Sig} {args : List Obj} (h : Heap α) {b : Beh α}
+    (hs : s.writes = []) (hw : b.within s h.length args = true) (hv : validArgs h.length args = true) :
+    frameB h (applyBeh h b) (reach args) = true ∧ (s.shares = [] → freshB h.length b.ret = true) :=
+  ⟨(frameB_iff _ _ _).mpr (call_frame h hs hw hv), fun hf => (freshB_iff _ _).mpr (call_fresh h hf hw).1⟩
+
+/-! ## any sequence -/
+
+/-- invariant of a history that started from heap `base`: the heap only grew, every cell of `base` still holds its
+frame, and every result handed out as a copy lies entirely outside `base` -/
+def Inv (base : Heap α) (st : State α) : Prop :=
+  base.length ≤ st.heap.length ∧
+  (∀ r, r < base.length → st.heap[r]? = base[r]?) ∧
+  (∀ p ∈ st.results, p.1 = true → ∀ r ∈ p.2, base.length ≤ r)
+
+theorem step_preserves_inv (T : List Sig) (hpure : ∀ s ∈ T, s.writes = [])
+    (hcopy : ∀ s ∈ T, s.copy = true → s.shares = [])
+    (base : Heap α) (st st' : State α) (e : Event α) (hinv : Inv base st) (hst : step T st e = some st') :
+    Inv base st' := by
+  obtain ⟨hlen, hget, hres⟩ := hinv
+  cases e with
+  | call s args b =>
+    simp only [step] at hst
+    split at hst
+    · rename_i hc
+      simp only [Bool.and_eq_true] at hc
+      obtain ⟨⟨hT, _⟩, hw⟩ := hc
+      have hmem : s ∈ T := by simpa using hT
+      injection hst with hst
+      subst hst
+      have happ := applyBeh_of_pure st.heap (hpure s hmem) hw
+      refine ⟨?_, ?_, ?_⟩
+      · simp only [happ, List.length_append]; omega
+      · intro r hr
+        simp only [happ]
+        rw [List.getElem?_append_left (by omega)]
+        exact hget r hr
+      · intro p hp hp1 r hr
+        simp only [List.mem_append, List.mem_singleton] at hp
+        rcases hp with hp | hp
+        · exact hres p hp hp1 r hr
+        · subst hp
+          have := (call_fresh st.heap (hcopy s hmem hp1) hw).1 r hr
+          omega
+    · simp at hst
+  | mutate t ws =>
+    simp only [step] at hst
+    split at hst
+    · rename_i refs hres_t
+      split at hst
+      · rename_i hall
+        injection hst with hst
+        subst hst
+        have hmem : (true, refs) ∈ st.results := List.mem_of_getElem? hres_t
+        have hge : ∀ w ∈ ws, base.length ≤ w.1 := by
+          intro w hwm
+          have := (List.all_eq_true.mp hall) w hwm
+          have hin : w.1 ∈ refs := by simpa using this
+          exact hres (true, refs) hmem rfl w.1 hin
+        refine ⟨?_, ?_, hres⟩
+        · simp only [applyWrites_length]; exact hlen
+        · intro r hr
+          simp only []
+          rw [applyWrites_getElem?_of_not_written]
+          · exact hget r hr
+          · intro w hwm heq
+            have := hge w hwm
+            exact Nat.not_le.mpr hr (heq ▸ this)
+      · simp at hst
+    · simp at hst
+
+theorem run_preserves_inv (T : List Sig) (hpure : ∀ s ∈ T, s.writes = [])
+    (hcopy : ∀ s ∈ T, s.copy = true → s.shares = [])
+    (base : Heap α) (es : List (Event α)) (st st' : State α) (hinv : Inv base st) (hrun : run T st es = some st') :
+    Inv base st' := by
+  induction es generalizing st with
+  | nil => simp only [run] at hrun; injection hrun with h; subst h; exact hinv
+  | cons e es ih =>
+    simp only [run] at hrun
+    split at hrun
+    · simp at hrun
+    · rename_i st1 hst1
+      exact ih st1 (step_preserves_inv T hpure hcopy base st st1 e hinv hst1) hrun
+
+/-- **frame, any sequence.** Over a table of signatures that write nothing and whose copies share nothing: after
+ANY finite history of calls (any operations of the table, any arguments taken from the heap as it then is — inputs,
+earlier results, shared or not —, any behaviour within the signatures) interleaved with the client changing, in
+place, results it received as copies, every cell of the initial heap `h₀` still holds the frame it held at the
+start.  In particular every chart and list that was there at the start is unchanged in values, columns, types and
+row labels, however often and in whatever order it was handed to the operations. -/
+theorem frame_history (T : List Sig) (hpure : ∀ s ∈ T, s.writes = [])
+    (hcopy : ∀ s ∈ T, s.copy = true → s.shares = [])
+    (h₀ : Heap α) (es : List (Event α)) (st' : State α)
+    (hrun : run T { heap := h₀, results := [] } es = some st') :
+    FrameHolds h₀ st'.heap (List.range h₀.length) := by
+  have hinv : Inv h₀ ({ heap := h₀, results := [] } : State α) :=
+    ⟨Nat.le_refl _, fun _ _ => rfl, fun p hp => by simp at hp⟩
+  have := run_preserves_inv T hpure hcopy h₀ es _ st' hinv hrun
+  intro r hr
+  exact this.2.1 r (by simpa using hr)
+
+/-- the same from any intermediate state: what is in the heap when a suffix of the history starts, and has not been
+handed out as a copy, is unchanged at its end -/
+theorem frame_history_from (T : List Sig) (hpure : ∀ s ∈ T, s.writes = [])
+    (hcopy : ∀ s ∈ T, s.copy = true → s.shares = [])
+    (base : Heap α) (st st' : State α) (es : List (Event α)) (hinv : Inv base st)
+    (hrun : run T st es = some st') :
+    FrameHolds base st'.heap (List.range base.length) := by
+  have := run_preserves_inv T hpure hcopy base es st st' hinv hrun
+  intro r hr
+  exact this.2.1 r (by simpa using hr)
+
+/-- **fresh, any sequence.** Every result handed out as a copy anywhere in such a history lies outside the
+initial heap: it shares no cell with any chart or list that was there at the start. -/
+theorem fresh_history (T : List Sig) (hpure : ∀ s ∈ T, s.writes = [])
+    (hcopy : ∀ s ∈ T, s.copy = true → s.shares = [])
+    (h₀ : Heap α) (es : List (Event α)) (st' : State α)
+    (hrun : run T { heap := h₀, results := [] } es = some st') :
+    ∀ p ∈ st'.results, p.1 = true → Fresh h₀.length p.2 := by
+  have hinv : Inv h₀ ({ heap := h₀, results := [] } : State α) :=
+    ⟨Nat.le_refl _, fun _ _ => rfl, fun p hp => by simp at hp⟩
+  exact (run_preserves_inv T hpure hcopy h₀ es _ st' hinv hrun).2.2
+
+/-! ## the table of the code as it is -/
+
+/-- no signature of the table lets an operation write into a cell of its arguments -/
+theorem opTable_pure : ∀ s ∈ opTable, s.writes = [] := by decide
+
+/-- every operation the property lists has a signature in the table, and names are unique -/
+def listedOps : List String :=
+  ["list.after", "list.before", "list.between", "list.mask", "list.sorted", "list.append", "list.append_item",
+   "list.move_start_to", "list.move_end_to", "list.deepcopy", "map.deepcopy", "mapset.deepcopy", "map.rate",
+   "mapset.rate"] ++ converterOps ++
+  ["write.osu", "write.quaver", "write.sm", "write.bms", "alg.full_ln", "alg.hitsound_copy", "alg.sv_normalize",
+   "alg.scroll_speed", "alg.dominant_bpm", "ptn.from_note_lists", "ptn.group", "ptn.combinations"]
+
+theorem opTable_covers_listed :
+    (∀ n ∈ listedOps, ∃ s, lookup n = some s ∧ s.name = n ∧ s.copy = true) ∧ (opTable.map (·.name)).Nodup := by
+  decide
+
+/-- every signature marked `copy` shares nothing — except the two converters of finding N14a, which hand out
+the source chart's `tags` list -/
+theorem opTable_copy_fresh :
+    ∀ s ∈ opTable, s.copy = true → s.shares = [] ∨ (s.name ∈ n14aOps ∧ s.shares = [(0, "tags")]) := by decide
+
+theorem opTableNoN14a_pure : ∀ s ∈ opTableNoN14a, s.writes = [] := by decide
+
+theorem opTableNoN14a_copy_fresh : ∀ s ∈ opTableNoN14a, s.copy = true → s.shares = [] := by decide
+
+/-- **C14 for the code's table** (hypothesis: the history does not call the two converters of finding N14a).
+Any history over the listed operations — filter/sort/append/move/copy, rate, the other 15 converter entry points,
+the four writers, full_ln, hitsound_copy, sv_normalize, scroll_speed, dominant_bpm, pattern extraction — and the
+two sharing controls, with the client changing copies in between, leaves every cell of the initial heap as it was,
+and no copy reaches into the initial heap. -/
+theorem frame_history_opTable (h₀ : Heap α) (es : List (Event α)) (st' : State α)
+    (hrun : run opTableNoN14a { heap := h₀, results := [] } es = some st') :
+    FrameHolds h₀ st'.heap (List.range h₀.length) ∧ ∀ p ∈ st'.results, p.1 = true → Fresh h₀.length p.2 :=
+  ⟨frame_history _ opTableNoN14a_pure opTableNoN14a_copy_fresh h₀ es st' hrun,
+   fresh_history _ opTableNoN14a_pure opTableNoN14a_copy_fresh h₀ es st' hrun⟩
+
+/-- the first half needs no exclusion: no call of ANY operation of the table changes a cell of its arguments
+(only the client's later change of a shared `tags` list can) -/
+theorem call_frame_opTable {s : Sig} (hs : s ∈ opTable) {args : List Obj} (h : Heap α) {b : Beh α}
+    (hw : b.within s h.length args = true) (hv : validArgs h.length args = true) :
+    FrameHolds h (applyBeh h b) (reach args) :=
+  call_frame h (opTable_pure s hs) hw hv
+
+/-! ## why the hypotheses are needed: counterexamples -/
+
+/-- **D17 (repaired in the source, kept as the reason for `writes = []`).** With the signature `sv_normalize` had
+as it was written — it assigned the `multiplier` column into the caller's tempo frame — there is a behaviour
+within the signature that changes a cell of its argument. -/
+theorem sv_normalize_writes_counterexample :
+    ∃ (h : Heap Nat) (args : List Obj) (b : Beh Nat),
+      b.within svNormalizeAsWritten h.length args = true ∧ validArgs h.length args = true ∧
+      ¬ FrameHolds h (applyBeh h b) (reach args) := by
+  refine ⟨[10], [[("objs.s:bpms._df", 0)]], { writes := [(0, 11)], news := [12], ret := [1] }, by decide, by decide, ?_⟩
+  rw [← frameB_iff]
+  decide
+
+/-- **N14a (open).** `OsuToQua.convert` / `QuaToOsu.convert` assign `result.tags = source.tags`: the table gives
+them `shares = [(0, "tags")]`.  A legal history — convert, then the client appends to the result's tags — changes
+a cell of the initial heap. -/
+theorem n14a_counterexample :
+    ∃ (h₀ : Heap Nat) (es : List (Event Nat)) (st' : State Nat),
+      run opTable { heap := h₀, results := [] } es = some st' ∧ ¬ FrameHolds h₀ st'.heap (List.range h₀.length) := by
+  refine ⟨[7, 8],
+    [.call (converterSig "conv.OsuToQua.convert") [[("", 0), ("tags", 1)]] { writes := [], news := [70], ret := [2, 1] },
+     .mutate 0 [(1, 9)]],
+    { heap := [7, 9, 70], results := [(true, [2, 1])] }, by decide, ?_⟩
+  rw [← frameB_iff]
+  decide
+
+/-! ## tie to the source (re-checked whenever the translator's output changes) -/
+
+/-- * the table's converter operations are exactly the `convert*` entry points of the converter classes in
+    `reamber/algorithms/convert`;
+  * its writers are exactly the games whose chart class has `write`;
+  * every operation the table marks as a deep copy (converters aside) is one whose source body makes a copy
+    (`deepcopy`/`.deepcopy()`), and `sv_normalize` copies the tempo frame (D17's repair);
+  * the converters the table lets share `tags` are exactly those whose source assigns `x.tags = y.tags`. -/
+theorem source_tie :
+    (∀ n ∈ converterOps, n ∈ Generated.Effects.converterOps) ∧
+    (∀ n ∈ Generated.Effects.converterOps, n ∈ converterOps) ∧
+    (opTable.map (·.name)).filter (fun n => writerOps.contains n) = Generated.Effects.writerOps ∧
+    writerOps = Generated.Effects.writerOps ∧
+    (∀ s ∈ opTable, s.deep = true → s.name ∈ converterOps ∨ (s.name, true) ∈ Generated.Effects.makesCopy) ∧
+    ("alg.sv_normalize", true) ∈ Generated.Effects.makesCopy ∧
+    (∀ n ∈ n14aOps, n ∈ Generated.Effects.assignsTags) ∧
+    (∀ n ∈ Generated.Effects.assignsTags, n ∈ n14aOps) := by decide
+
+/-! ## non-vacuity -/
+
+/-- a legal three-event history over the code's table: filter a list, deep-copy a chart, change the copy -/
+example :
+    (run opTableNoN14a ({ heap := [1, 2, 3], results := [] } : State Nat)
+      [.call (lookup "list.after").get! [[("", 0), ("_df", 1)]] { writes := [], news := [4, 5], ret := [3, 4] },
+       .call (lookup "map.deepcopy").get! [[("", 2)]] { writes := [], news := [6], ret := [5] },
+       .mutate 1 [(5, 60)]]).map (·.heap) = some [1, 2, 3, 4, 5, 60] := by decide
+
+/-- a call that writes into its argument is not a legal event over the table -/
+example :
+    run opTable ({ heap := [1, 2], results := [] } : State Nat)
+      [.call (lookup "alg.sv_normalize").get! [[("", 0), ("objs.s:bpms._df", 1)]]
+        { writes := [(1, 20)], news := [3], ret := [2] }] = none := by decide
+
+/-- the hypotheses of `copy_result_mutation_frame` are satisfiable -/
+example : (⟨[], [30], [1]⟩ : Beh Nat).within (lookup "map.rate").get! 1 [[("", 0)]] = true := by decide
+
+end Reamber.Effects
